@@ -87,8 +87,17 @@ func enumFormat(tier string, emit func(string)) {
 			put(ctrl, a)
 		}
 	}
-	// 1. every byte as a directive character
-	for _, s := range singles(allBytes()) {
+	// 1. every byte as a directive character (the real directives first: simplest failing input first)
+	for _, s := range singles(directiveChars) {
+		each(s)
+	}
+	var others []byte
+	for _, b := range allBytes() {
+		if strings.IndexByte(string(directiveChars), b) < 0 {
+			others = append(others, b)
+		}
+	}
+	for _, s := range singles(others) {
 		each(s)
 	}
 	// 2. a huge prefix parameter (literal, and through v) on every real directive
